@@ -1,5 +1,5 @@
 NOT_CLAIMED = {}
-FUZZ_PROPS = ["C01", "C02", "C03", "C08", "C11", "C12", "C20"]
+FUZZ_PROPS = ["C%02d" % i for i in range(1, 21)]
 NOTES = "Property-based testing / fuzzing only. Exit 0 held, 1 VIOLATION, 2 inconclusive. VERIF_SEED selects the PRNG seeds; work per tier is fixed (case counts, not time)."
 
 add("C01", "exploration", "property-based testing (proptest): generated DAG facts x construction paths vs BFS closure reference model",
